@@ -145,6 +145,27 @@ class Grader:
     def where(self, b):
         return G.where(self.fn, b)
 
+    def collapse(self, t, dim):
+        """the tree with component `dim` of every grade vector set to 0"""
+        if isinstance(t, list):
+            return [self.collapse(x, dim) for x in t]
+        if isinstance(t, tuple) and len(t) == 2 and t[0] == 'g':
+            v = list(t[1])
+            if dim < len(v):
+                v[dim] = 0
+            return ('g', type(t[1])(v) if not isinstance(t[1], tuple) else tuple(v))
+        if is_S(t):
+            terms = []
+            for vn, g in t[2]:
+                v = list(g)
+                if dim < len(v):
+                    v[dim] = 0
+                terms.append((vn, tuple(v) if isinstance(g, tuple) else type(g)(v)))
+            if len({g for _, g in terms}) == 1:
+                return ('g', terms[0][1])
+            return ('S', t[1], tuple(terms), t[3])
+        return t
+
     # ---- trees
     def mk(self, shape, vec):
         if shape == 'Fp':
@@ -597,6 +618,13 @@ class Grader:
                         st_out = dict(st)
                         for pi, tree in self.fixed_edges[(b, s2)]:
                             st_out[pi] = tree
+                            # values computed from that operand BEFORE the test (x^3 hoisted above `if z == 1`) lose the
+                            # same scaling dimension: their weight in it no longer matters on this edge
+                            dim = getattr(self, 'point_dim', {}).get(pi)
+                            if dim is not None:
+                                for l_, t_ in list(st_out.items()):
+                                    if l_ != pi:
+                                        st_out[l_] = self.collapse(t_, dim)
                     if getattr(self, 'refine_edge', None) is not None:
                         st_out = self.refine_edge(b, s2, st_out)
                         if st_out is None:
@@ -815,6 +843,12 @@ def a_curve(cx, rule, which, floor):
             if npt == 0:
                 continue
             g.fixed_edges = z_fixed_edges(F, fn, g, init)
+            g.point_dim = {}
+            k_pt = 0
+            for i_ in range(1, fn.arg_count + 1):
+                if isinstance(init.get(i_), list):
+                    g.point_dim[i_] = k_pt
+                    k_pt += 1
             g.run(init)
             n += 1
             inst = fn.short
